@@ -738,7 +738,7 @@ class Interp:
             c = st.simp(V.cid(f))
             if z3.is_int_value(c):
                 return self.instantiate(c.as_long(), cargs, node)
-            raise Unsupported("instantiating a symbolic class")
+            return self.engine.call_unknown_function(self, f, cargs, node)
         if k == "ref":
             c = st.class_id_of(f)
             info = self.ct.info.get(c) if c is not None else None
